@@ -264,7 +264,7 @@ class BlockCollection(list):
         """
         weightedBurnup = 0.0
         totalWeight = 0.0
-        for b in self:
+        for b in self.getCandidateBlocks():
             # self.getWeight(b) incorporates the volume as does mass, so divide by volume not to double-count
             weighting = b.p.massHmBOL * self.getWeight(b) / b.getVolume()
             totalWeight += weighting
